@@ -553,7 +553,7 @@ def corpus_cases():
 
 
 def run_exhaustive(ctx, res: Result):
-    ms = [(0, 0), (1, 0), (0, 1)] if os.environ.get("C09_EXH_MS3") else [(0, 0), (1, 0)]
+    ms = [(0, 0), (1, 0)] if os.environ.get("C09_EXH_MS2") else [(0, 0), (1, 0), (0, 1)]
     trees = all_small_trees(ms)
     n = 0
     for rec in (True, False):
